@@ -79,6 +79,12 @@ def sp_el_fill(ip, st, pos, kws):
     return Opaque(T("(%s %s %s %s)" % (f, obj_term(pos[0]).s, st_term(pos[1]).s, v_term(ip, pos[2]).s), "St"))
 
 
+def sp_el_fill_stops(ip, st, pos, kws):
+    """el_fill_stops(el, s, v): the element's own fill(v) in state s signals LenaStopFill"""
+    f = ip.reg.ufun("el_fill_stops", ["Obj", "St", "V"], "Bool")
+    return Bool(T("(%s %s %s %s)" % (f, obj_term(pos[0]).s, st_term(pos[1]).s, v_term(ip, pos[2]).s), "Bool"))
+
+
 def sp_el_compute(ip, st, pos, kws):
     reg = ip.reg
     f = reg.ufun("el_compute", ["Obj", "St"], reg.lst("V"))
@@ -196,7 +202,7 @@ def register(ix):
     for name, fn in [("method", sp_method), ("callable_m", sp_callable_m), ("has_attr", sp_has_attr)]:
         ix.spec_names[name] = fn
     for name, fn in [("el_call", sp_el_call), ("el_run", sp_el_run), ("el_source", sp_el_source), ("elstate", sp_elstate),
-                     ("el_fill", sp_el_fill), ("el_compute", sp_el_compute), ("el_request", sp_el_request),
+                     ("el_fill", sp_el_fill), ("el_fill_stops", sp_el_fill_stops), ("el_compute", sp_el_compute), ("el_request", sp_el_request),
                      ("el_request_state", sp_el_request_state), ("el_reset", sp_el_reset),
                      ("fold_fill", sp_fold_fill), ("seq_run", sp_seq_run), ("same", sp_same), ("has_run", sp_has_run)]:
         ix.spec_names[name] = fn
